@@ -207,15 +207,35 @@ TN_TYPES = [
 ]
 
 
+TN_FAMILIES = [
+    ["[int32; 2]", "[int32; 3]", "[bool; 2]"], ["[[int32; 2]; 2]", "[[int32; 2]; 3]", "[[int32; 3]; 2]"], ["Vec[[int32; 2]]", "Vec[[int32; 3]]", "Vec[Vec[int32]]", "Vec[int32]"],
+    ["Ref[int32]", "Ref[bool]", "Ref[[int32; 2]]", "Ref[Vec[int32]]"], ["(int32, bool)", "(bool, int32)", "(int32, bool, string)"], ["((int32, bool), string)", "(int32, (bool, string))", "(int32, bool, string)"],
+    ["Bq[int32]", "Bq[bool]", "Bq[(int32, bool)]", "Bq[[int32; 2]]", "Bq[Bq[int32]]"], ["(int32) -> int32", "(int32) -> bool", "(int32, int32) -> int32"], ["int32", "bool", "string", "Pq", "Eq", "dyn Tq"],
+]
+
+
 def typename_program(rng, n):
     """n functions, each taking a tuple of two types drawn from structurally confusable types: every distinct type must get its own Go name"""
     head = ("struct Bq[T] { v: T }\nstruct Pq { a: int32 }\nenum Eq { Eqa, Eqb(int32) }\ntrait Tq { fn tq(Self) -> int32; }\nimpl Tq for int32 { fn tq(self: int32) -> int32 { self } }\n"
             "fn idq(x: int32) -> int32 { x }\nfn posq(x: int32) -> bool { x > 0 }\nfn addq(x: int32, y: int32) -> int32 { x + y }\n"
             "fn mkvi() -> Vec[int32] { vec_new() }\nfn mkvb() -> Vec[bool] { vec_new() }\nfn mkva2() -> Vec[[int32; 2]] { vec_new() }\nfn mkva3() -> Vec[[int32; 3]] { vec_new() }\nfn mkvv() -> Vec[Vec[int32]] { vec_new() }\n")
     fns, calls = [], ["    let dq: dyn Tq = 5;"]
-    for i in range(n):
-        (t1, v1), (t2, v2) = rng.choice(TN_TYPES), rng.choice(TN_TYPES)
-        shape = rng.choice(["pair", "pair", "triple", "nested", "vec", "ref", "arr"])
+    # half of the functions come in pairs that differ in ONE component by a sibling type (same shape, other length /
+    # element / nesting), so that a name that forgets that detail collides inside one program
+    plan = []
+    while len(plan) < n:
+        if rng.random() < 0.6:
+            fam = rng.choice(TN_FAMILIES)
+            a_, b_ = rng.sample(fam, 2)
+            other = rng.choice(TN_TYPES)
+            shape = rng.choice(["pair", "pair", "triple", "nested", "vec", "ref", "arr"])
+            first = rng.random() < 0.5
+            for x_ in (a_, b_):
+                tx = next(t for t in TN_TYPES if t[0] == x_)
+                plan.append(((tx, other) if first else (other, tx), shape))
+        else:
+            plan.append(((rng.choice(TN_TYPES), rng.choice(TN_TYPES)), rng.choice(["pair", "pair", "triple", "nested", "vec", "ref", "arr"])))
+    for i, (((t1, v1), (t2, v2)), shape) in enumerate(plan):
         if shape == "pair":
             ty, val = "(%s, %s)" % (t1, t2), "(%s, %s)" % (v1, v2)
         elif shape == "triple":
